@@ -3,8 +3,8 @@ package main
 // C06 — every stored signature is valid for the message as it currently stands.
 
 import (
-	"sort"
 	"go/token"
+	"sort"
 	"strings"
 
 	"golang.org/x/tools/go/ssa"
